@@ -118,7 +118,7 @@ def gen_mesh_spec(rng, dim=None, with_orphans=True, point_cloud=False):
 
 
 def gen_field_specs(rng, dim, k=None):
-    names = ["u", "vel", "sigma", "id", "T", "flag", "w8", "grad"]
+    names = ["u", "vel", "sigma", "id", "T", "flag", "w8", "grad", "flux @ t=0.5", "flux @ t=1.0"]
     rng.shuffle(names)
     out = []
     for j in range(k if k is not None else rng.randint(0, 3)):
